@@ -19,6 +19,13 @@ Inductive case :=
 (* no-op endpoint: router, concurrent_calls, backend status, backend header lines as seen on the
    wire by a direct client, body chunks as written by the backend, what the client received
    (its body cut at the same chunk boundaries) *)
+(* byte-level literals (validation of Model go_escape / go_unquote / scan_number against the real
+   encoding/json): a string literal found in a gateway reply (text between the quotes, Go's decoding
+   of it); a number literal found in a gateway reply and the bytes after it; a string literal the
+   backend sent (written by the generator's serialiser, any escape style) and its value *)
+| CLit (raw value : string)
+| CNumLit (lit rest : string)
+| CSrcLit (raw value : string)
 | CNoop (r : router) (cc : nat) (ef : errflag) (st : Z) (hs : list header) (body : list chunk) (obs : nobs).
 
 Definition check_case (c : case) : bool * bool :=
@@ -28,6 +35,17 @@ Definition check_case (c : case) : bool * bool :=
       ((c_status m =? c_status obs)%Z &&
        ((c_status m =? 500)%Z (* the text of an error reply is outside C13 *) || cbody_eqb (c_body m) (c_body obs)),
        spec_body_b e coll o b obs)
+  | CLit raw v =>
+      (str_eqb (go_escape v) raw &&
+       match go_unquote (raw ++ """")%string with
+       | Some (d, r) => str_eqb d v && str_eqb r "" | None => false end, true)
+  | CNumLit l rest =>
+      (all_chars num_char l && negb (str_eqb l "") &&
+       (let '(l', r') := scan_number (l ++ rest)%string in str_eqb l' l && str_eqb r' rest), true)
+  | CSrcLit raw v =>
+      (* escaped surrogates are outside the model (None) *)
+      (match go_unquote (raw ++ """")%string with
+       | Some (d, r) => str_eqb d v && str_eqb r "" | None => true end, true)
   | CNoop r cc ef st hs body obs =>
       (* ef: the backend's return_error_* flags, ignored for no-op (Model.noop_backend_status_handler) *)
       let m := match noop_backend_status_handler ef with
